@@ -201,6 +201,11 @@ class Builder(ast.NodeVisitor):
             self.bind_target(t.value, rhs)
         elif isinstance(t, (ast.Subscript, ast.Attribute)):
             self.write_expr(t.value)
+            if isinstance(t, ast.Attribute) and t.attr == 'data':
+                # binding the backing list of a UserList takes ownership of it: every later documented mutation of the object
+                # (append, insert, x[i] = …) writes that list, so it must be freshly allocated — as bad as writing it here
+                for v in rhs[1]:
+                    if not v.endswith('.*'): self.f.writes.append(v)
             # storing a reference into an object attribute / list slot: the object's contents now include the stored
             # buffer.  Element stores into ndarrays copy values; a subscript store keeps a reference only when the target
             # is list-typed in this function (see DESIGN.md, C17 modelling assumptions).
